@@ -53,28 +53,33 @@ def decDigits : Nat → Nat → Bytes
 def decimal (v : Int) : Bytes :=
   if v < 0 then 0x2D :: decDigits 40 v.natAbs else decDigits 40 v.natAbs
 
-/-- `NumToRepr::into_repr` for the integer types; `none` = unknown type name -/
+/-- the macro body of `impl_NumToRepr_for_integers!`: digit count from the table, `with_capacity`,
+the writer from `curr = digit_count` downwards, `set_len`. `none` = a gap in the table or a
+writer that would run below offset 0 (neither can happen: Props/C14) -/
+def intoReprCore (rf : Refuse) (hp : Heap) (rows : List (Int × Int × Nat)) (wide : Bool) (v : Int) :
+    Option (Option Handle × Heap) :=
+  match lookupRows rows v with
+  | none => none
+  | some digits =>
+    match withCapacity rf hp digits with
+    | (none, hp1) => some (none, hp1)
+    | (some r0, hp1) =>
+      let bytes := writer wide (decide (v < 0)) v.natAbs
+      if bytes.length > digits then none
+      else
+        match writeThenSetLen hp1 r0 (digits - bytes.length) bytes digits with
+        | .ok _ hp2 r2 => some (some r2, hp2)
+        | _ => none
+
+/-- `NumToRepr::into_repr` by type name; `none` = unknown type name -/
 def intToRepr (rf : Refuse) (hp : Heap) (ty : String) (v : Int) : Option (Option Handle × Heap) :=
   let base := if ty.startsWith "nz_" then (ty.drop 3).toString else ty
   if base == "u128" || base == "i128" then
-    -- `Handle::from_str(itoa::Buffer::new().format(self))`; itoa is assumed to print `decimal`
+    -- `Repr::from_str(itoa::Buffer::new().format(self))`; itoa is assumed to print `decimal`
     some (fromStr rf hp (decimal v))
   else
   match digitTable ty with
   | none => none
-  | some rows =>
-    match lookupRows rows v with
-    | none => none          -- the match is exhaustive in Rust; a gap here is a translation finding
-    | some digits =>
-      match withCapacity rf hp digits with
-      | (none, hp1) => some (none, hp1)
-      | (some r0, hp1) =>
-        let wide := !(base == "u8" || base == "i8")        -- `size_of::<$t>() >= 2`
-        let bytes := writer wide (decide (v < 0)) v.natAbs
-        if bytes.length > digits then none                 -- `curr` would underflow: alarm
-        else
-          match writeThenSetLen hp1 r0 (digits - bytes.length) bytes digits with
-          | .ok _ hp2 r2 => some (some r2, hp2)
-          | _ => none
+  | some rows => intoReprCore rf hp rows (!(base == "u8" || base == "i8")) v   -- `size_of::<$t>() >= 2`
 
 end LS
